@@ -29,6 +29,14 @@ dimensional units cancel while %/ppth/[pi] stays are enumerated; (3) CHAINS: an 
 earlier arithmetic - ((a*|/ b) op c), (c op (a*|/ b)), ((a**p) op c), (c op (a**p)) over a small unit alphabet -
 because results can differ from freshly built quantities (kept dimensionless units, unreduced exponents).  The inner
 operation of a chain is never a sum (no cancellation), so the 1e-12 tolerance stays meaningful.
+
+Round-4 additions: (4) the plain numbers 0 and 0.0 on either side of every operator and the builtin sum() over lists of
+1-3 quantities (sum() starts from the plain number 0: a list containing a dimensional quantity must be refused, a list
+of dimensionless ones gives the arithmetic sum without units); (5) a COMPLETE sweep over every linear table unit
+(plain and prefixed spelling) in every tier - 1/q, 2/q, q/2, q*2, q**p for p in {-1,-2,2,1/2,-1/2}, q/q', q*q', q+q',
+q-q', -q - so that no table row is outside the quick tier whatever the seed; (6) NumPy scalars as exponents
+(np.int32/int64 for whole exponents, np.float64 for all, np.float32/float16 where the exponent is exactly
+representable, so that the numeric power itself is unaffected by the narrower type).
 """
 import math
 from fractions import Fraction as F
@@ -80,7 +88,7 @@ WIN_MAGS = [(2.0, 0.5), (-3.0, 1e10), (ARR_A, 2.0), (0.5, ARR_B)]
 WIN_MAGS_THOROUGH = WIN_MAGS + [(0.0, -3.0), (1e10, 0.5), (0.5, 2.0), (ARR_A, ARR_B)]
 # a refusal depends on the units only: sums of core units of different dimension get 4 magnitude pairs, not the grid
 REFUSAL_MAGS = [(2.0, 0.5), (-3.0, 1e10), (ARR_A, 2.0), (-3.0, ARR_B)]
-NUMBERS = [2, -0.5]                                           # plain int and plain float
+NUMBERS = [2, -0.5, 0, 0.0]                                   # plain int and float, incl. the zero sum() starts from
 NUM_MAGS = [2.0, -3.0, 0.5, ARR_A]
 OPS = ["add", "sub", "mul", "div"]
 # exponents n/d ("small d") ; every one is tried in all applicable forms
@@ -103,6 +111,15 @@ CHAIN_POWERS = [((1, 2), "pair"), ((1, 2), "float"), ((1, 2), "Fraction"), ((1, 
 CHAIN_POW_THIRD = [(("", "m", 1),), (("c", "m", 1),), (("", "s", 1),), (("", "m", 2),), (), (("", "%", 1),),
                    (("", "J", 1),)]
 CHAIN_POW_MAGS = [(4.0, 1.0), ([1.0, 4.0, 9.0], [2.0, -1.0, 0.5])]
+# builtin sum(): lists of 1..3 quantities over these units
+SUM_LIST_UNITS = [(("", "m", 1),), (("c", "m", 1),), (), (("", "%", 1),), (("", "rad", 1),),
+                  (("k", "g", 1), ("", "m", 2), ("", "s", -2))]
+SUM_LIST_MAGS = [(1.0, 20.0, 0.5), ([1.0, 2.0], [20.0, -4.0], [0.5, 8.0])]
+# complete sweep over the table (every tier): magnitudes that occur nowhere else, so no case is enumerated twice
+SWEEP_X, SWEEP_Y, SWEEP_ARR = 4.0, 3.0, [3.0, 0.25, 5.0]
+SWEEP_POWERS = [((-1, 1), "int"), ((-2, 1), "int"), ((2, 1), "int"), ((1, 2), "pair"), ((-1, 2), "pair"),
+                ((-1, 2), "float"), ((-1, 1), "float")]
+NP_FORMS = ["np.float64", "np.float32", "np.float16", "np.int64", "np.int32"]
 
 _UNITS = None          # list of unit tuples: CORE first, then the window entries
 _NCORE = len(CORE)
@@ -289,6 +306,22 @@ def _expect_inner(case):
                 tags.append("units-not-demanded")
             units = None
         return dict(base=base, scale=0.0, dims=ed, units=units, natural=_natural(em, ed), tags=tags)
+    if k == "sum":
+        # builtin sum(items) == ((0 + q1) + q2) + ...: the plain 0 has no dimension, so every item must be
+        # dimensionless; the result carries the left-most operand's units, i.e. none
+        tags += ["op:sum", "items:%d" % len(case["items"])]
+        total = np.asarray(0.0)
+        scale = np.asarray(0.0)
+        for o in case["items"]:
+            m, d, b, _, _ = _ref(o)
+            if b.ndim:
+                tags.append("array")
+            if not R.nodim(d):
+                return dict(refuse=True, tags=sorted(set(tags + ["different-dimension", "number-vs-dimensional"])))
+            total = total + b
+            scale = np.maximum(scale, np.abs(b))
+        return dict(base=total, scale=scale, dims=tuple([F(0)] * R.NDIM), units={}, natural={},
+                    tags=sorted(set(tags)))
     if k == "neg":
         ma, da, ba, _, _ = _ref(case["a"])
         return dict(base=-ba, scale=0.0, dims=da, units=None, natural=dict(ma), tags=tags + ["op:neg"])
@@ -351,6 +384,10 @@ def _power_arg(case):
     if form == "Fraction":
         from scinumtools.units import Fraction as LF
         return LF(n, d)
+    if form in ("np.float64", "np.float32", "np.float16"):
+        return getattr(np, form[3:])(n / d)
+    if form in ("np.int64", "np.int32"):
+        return getattr(np, form[3:])(n)
     raise HarnessError("unknown exponent form " + form)
 
 
@@ -369,6 +406,8 @@ def _execute(case):
         return a / b
     if k == "neg":
         return -_mk(case["a"])
+    if k == "sum":
+        return sum([_mk(o) for o in case["items"]])
     return _mk(case["a"]) ** _power_arg(case)
 
 
@@ -394,6 +433,8 @@ def check_case(case):
                            behaviour="raises:" + out[1]), "refusal:hang"
         return None, "refused"
     sub = "power" if case["k"] == "pow" else ("negation" if case["k"] == "neg" else "arithmetic")
+    if case["k"] == "sum":
+        sub = "builtin-sum"
     if out[0] == "err":
         return failure(sub, case, "a result", list(out[1:]), tags=tags, behaviour="raises:" + out[1]), "raised"
     res = out[1]
@@ -439,12 +480,14 @@ def _observe(res):
 NBIN = 64
 NUNA = 16
 NCHAIN = 32
+NSWEEP = 16
 
 
 def plan(tier, seed):
     init_worker()
     return ([("bin", tier, seed, k) for k in range(NBIN)] +
             [("chain", tier, seed, k) for k in range(NCHAIN)] +
+            [("sweep", tier, seed, k) for k in range(NSWEEP)] +
             [("una", tier, seed, k) for k in range(NUNA)])
 
 
@@ -513,8 +556,12 @@ def _bin_cases(units, k, tier):
 
 def _forms(n, d):
     if d == 1:
-        return ["int", "float", "pair", "Fraction"]
-    return ["pair", "float", "Fraction"]
+        return ["int", "float", "pair", "Fraction"] + NP_FORMS
+    out = ["pair", "float", "Fraction", "np.float64"]
+    for f in ("np.float32", "np.float16"):          # only where the narrower type holds n/d exactly
+        if float(getattr(np, f[3:])(n / d)) == n / d:
+            out.append(f)
+    return out
 
 
 def _una_cases(units, k):
@@ -529,8 +576,44 @@ def _una_cases(units, k):
                     yield dict(k="pow", a=o, p=[n, d], form=form)
 
 
+def _sweep_cases(k):
+    """every linear table unit (all windows), whatever the tier and seed; plus the builtin-sum lists"""
+    core, extra, _ = _windows()
+    units = core + extra
+    for iu, u in enumerate(units):
+        if iu % NSWEEP != k or not u:
+            continue
+        for x in (SWEEP_X, SWEEP_ARR):
+            q = _opnd(u, x)
+            yield dict(k="neg", a=q)
+            for c in (1, 2):
+                yield dict(k="bin", op="div", a=_plain(c), b=q)
+            yield dict(k="bin", op="div", a=q, b=_plain(2))
+            yield dict(k="bin", op="mul", a=q, b=_plain(2))
+            yield dict(k="bin", op="mul", a=_plain(2), b=q)
+            for (n, d), form in SWEEP_POWERS:
+                yield dict(k="pow", a=q, p=[n, d], form=form)
+            for op in OPS:
+                yield dict(k="bin", op=op, a=q, b=_opnd(u, SWEEP_Y))
+    idx = 0
+    n = len(SUM_LIST_UNITS)
+    for length in (1, 2, 3):
+        for combo in range(n ** length):
+            mine = idx % NSWEEP == k
+            idx += 1
+            if not mine:
+                continue
+            us = [SUM_LIST_UNITS[(combo // n ** i) % n] for i in range(length)]
+            for mags in SUM_LIST_MAGS:
+                yield dict(k="sum", items=[_opnd(R.unit(*u), mags[i]) for i, u in enumerate(us)])
+
+
 def _leaves(o):
     if "plain" in o:
+        return
+    if "items" in o:
+        for it in o["items"]:
+            yield from _leaves(it)
         return
     if "k" in o:
         for key in ("a", "b"):
@@ -549,7 +632,7 @@ def run_shard(desc):
     sh = Shard(PROPERTY)
     units, w, nwin = _alphabet(tier, seed)
     gen = (_bin_cases(units, k, tier) if kind == "bin" else _chain_cases(k, tier) if kind == "chain"
-           else _una_cases(units, k))
+           else _sweep_cases(k) if kind == "sweep" else _una_cases(units, k))
     for case in gen:
         bad, label = check_case(case)
         if label == "not-demanded":
@@ -558,7 +641,10 @@ def run_shard(desc):
         sh.evaluations += 1
         if not _trivial(case):
             sh.nontrivial += 1
-        sh.count(("chain" if kind == "chain" else case["k"]) + (":" + case["op"] if "op" in case else "") + ":" + label)
+        sh.count((kind if kind in ("chain", "sweep") else case["k"]) + (":" + case["op"] if "op" in case else "")
+                 + ":" + label)
+        if kind == "sweep":
+            sh.count("sweepkind:" + case["k"] + ":" + label)
         if case["k"] == "pow":
             sh.count("pow-form:" + case["form"] + (":integral" if case["p"][1] == 1 else ":nonintegral"))
         if bad:
@@ -600,6 +686,12 @@ def finish(total, tier, seed):
             tot("chain:div", ":ok:fold-keeps-dimensionless") + tot("chain:div:bad"),
         "chained sums computed": tot("chain:add:ok") + tot("chain:add:bad"),
         "chained sums refused": tot("chain:add", ":refused") + tot("chain:add", ":refusal:accepted"),
+        "sweep quotients": tot("sweep:div:ok") + tot("sweep:div:bad") + tot("sweep:div:raised"),
+        "sweep powers": tot("sweepkind:pow:"),
+        "builtin sums refused": h.get("sweepkind:sum:refused", 0) + h.get("sweepkind:sum:refusal:accepted", 0),
+        "builtin sums computed": h.get("sweepkind:sum:ok", 0) + tot("sweepkind:sum:bad") + tot("sweepkind:sum:raised"),
+        "numpy float32 exponents": h.get("pow-form:np.float32:nonintegral", 0),
+        "numpy integer exponents": h.get("pow-form:np.int64:integral", 0),
     }
     empty = [name for name, v in need.items() if v == 0]
     if empty:
@@ -607,7 +699,12 @@ def finish(total, tier, seed):
     return dict(
         window=w, windows=nwin, window_size=WINDOW_SIZE, units_in_alphabet=len(units), core_units=_NCORE,
         bounds=dict(scalar_magnitudes=SCALARS, arrays=[ARR_A, ARR_B], plain_numbers=NUMBERS,
-                    exponents=["%d/%d" % e for e in EXPONENTS], exponent_forms=["int", "pair", "float", "Fraction"],
+                    exponents=["%d/%d" % e for e in EXPONENTS],
+                    exponent_forms=["int", "pair", "float", "Fraction"] + NP_FORMS,
+                    sweep="every linear table unit (plain + prefixed spelling, %d units) in every tier: neg, 1/q, 2/q, "
+                          "q/2, q*2, 2*q, 7 powers, q op q' for the four operators; magnitudes 4, 3, [3,0.25,5]"
+                          % (len(_windows()[0]) + len(_windows()[1]) - 1),
+                    builtin_sum="lists of 1..3 quantities over %d units, scalar and array" % len(SUM_LIST_UNITS),
                     operations=OPS + ["neg", "pow"], tolerance=TOL,
                     pairs="all ordered pairs of the unit alphabet; full magnitude grid on core x core (4 pairs for "
                           "sums that must be refused), %d magnitude pairs elsewhere"
@@ -626,7 +723,8 @@ MANIFEST = dict(
          "ordered operand pairs over 23 core units (prefixed, compound, fractional-dimension, dimensionless, %*m-like) plus a "
          "seed-selected window of 12-13 further linear table units (thorough: every linear table unit, plain and "
          "prefixed: 197 units, all 38 809 ordered pairs, ~1.47 million cases), magnitudes {0,2,-3,0.5,1e10} and arrays, a plain int/float on either side of every operator, "
-         "18 exponents n/d (d<=6) in int/pair/float/Fraction form. Checked per case: base value (rel 1e-12), "
+         "18 exponents n/d (d<=6) in int/pair/float/Fraction/NumPy-scalar form, plain 0 and builtin sum(), a complete "
+         "per-unit sweep of the whole unit table in every tier. Checked per case: base value (rel 1e-12), "
          "dimension vector, units bookkeeping (left units for sums, exponent sums, exponent*p, folding when all "
          "dimensions vanish), refusal of sums of different dimension (incl. number +- angle). Chains: operands that "
          "are results of * / ** ((a op1 b) op2 c, c op2 (a op1 b), (a**p) op2 c) over 10 units (18 in thorough).",
